@@ -56,8 +56,18 @@ def run(ctx):
                   _arg_reads(n.children[1].strip(casts=True).children[1], 'mask')]
         ctx.check(len(idxasg) == 1 and cfg.dominates(v(holder), v(idxasg[0])), rid, Q + fname + '#slot', f.loc, 'slot index = ticket & mask, computed after the ticket is read')
         idx = idxasg[0].children[0].strip(casts=True).declid if idxasg else None
-        def uses_idx(n):
-            return any(x.k == 'DeclRefExpr' and x.declid == idx for x in n.walk())
+        def uses_idx(n, _d=0):
+            for x in n.walk():
+                if x.k != 'DeclRefExpr':
+                    continue
+                if x.declid == idx:
+                    return True
+                # a named pointer to the sub-queue (`subqueue = static_cast<..>(buf[slot])`) stands for its initialiser
+                if _d < 2 and x.decl is not None and x.decl.get('sc') == 'local' and x.declid != idx:
+                    ds_ = q.local_defs(f, x.declid)
+                    if len(ds_) == 1 and ds_[0][1] == 'init' and ds_[0][2] is not None and uses_idx(ds_[0][2], _d + 1):
+                        return True
+            return False
         ctx.check(all(uses_idx(c.args[0]) for c in rs) and uses_idx(pub[0].args[0]) and uses_idx(sub[0].obj), rid, Q + fname + '#same-slot', f.loc,
                   'sequence read, sub-buffer and publication all use that slot index')
         # order
